@@ -314,6 +314,14 @@ theorem processDNS_tie (parseIP : Bytes → Bytes) (ip6 : Bytes → PtrIP) (hP :
       | panic => exact ⟨rfl, hgl⟩
       | hang => exact ⟨rfl, hgl⟩
 
+/-- **ProcessDNS tie, unconditional form** (`net.ParseIP` as the model has it, any IPv6 text parser `p6`) -/
+theorem processDNS_tie_ref (p6 : Bytes → Bytes) (h : GDNSHandler) (hg : TableGood h) (p : Bytes) (h0 : GDNSHandler) :
+    (tableView ((genDNSHandler_ProcessDNS (refParseIP p6) h p).run h0).1,
+      omap resView ((genDNSHandler_ProcessDNS (refParseIP p6) h p).run h0).2)
+      = Model.processDNS (fun s => ptrView (p6 s)) (tableView h) p
+    ∧ TableGood ((genDNSHandler_ProcessDNS (refParseIP p6) h p).run h0).1 :=
+  processDNS_tie (refParseIP p6) (fun s => ptrView (p6 s)) (refParseIP_hP p6) h hg p h0
+
 /-- **DNSFind tie.**  The regenerated `DNSFind` does not change the table and returns the entry stored under the name,
     the zero entry when there is none: `DNSTable.find` of the model. -/
 theorem dnsFind_tie (h : GDNSHandler) (hg : TableGood h) (name : Bytes) (h0 : GDNSHandler) :
